@@ -6,7 +6,13 @@ spec: {"schema": <raw dict> | {"files": {name: dict}, "entry": name}, "phases": 
        "headers": {generic request headers = NetworkConfig.headers}, "override": {"query"|"headers"|"cookies"|"path_parameters": {..}},
        "slow_prefix": "/op0", "slow_s": 0.1 (the API answers slowly for that path), "preimport": bool,
        "workers": n, "max_examples": k, "step_count": k | null, "responder": "ok" | "fail500", "repeat": n}
-result: {"runs": [{"requests": [...], "failures": [...], "entropy": [...], "seed_calls": [...]}]}
+       optional per run: "generation": {"allow_x00": bool, "codec": str|null, "header_strategy": name|null, "graphql_allow_null": bool,
+       "with_security_parameters": bool} (also given to schema.configure), "formats": {format name: strategy name} (registered through
+       schemathesis.openapi.format for this run only and unregistered afterwards), "graphql": SDL text instead of "schema",
+       "carriers": [{"id", "module", "name", "call"}] process-wide containers to snapshot right before and right after the run
+   or {"sequence": [spec, spec, ...]}: the runs are executed one after the other IN THIS PROCESS (multi-file schemas with the same
+       content share one directory, so that file-keyed caches are shared too)
+result: {"runs": [{"requests": [...], "failures": [...], "entropy": [...], "seed_calls": [...], "snap_before": [[site, key, value]..], "snap_after": [...]}]}
 
 What is recorded besides the traffic:
 * every call of hypothesis.core.get_random_for_wrapped_test (the one place where Hypothesis chooses the PRNG of a test):
@@ -137,6 +143,82 @@ def install():
         pass
 
 
+# ---- snapshots of process-wide containers (tokens are small integers, stable inside this process; every tokenised object is kept
+# alive so that an id is never reused)
+_TOKENS: dict = {}
+_KEEP: list = []
+
+
+def _token(obj) -> int:
+    if isinstance(obj, (str, bytes, int, float, bool, type(None))) or (isinstance(obj, tuple) and all(isinstance(x, (str, int, type(None))) for x in obj)):
+        key = ("v", repr(obj))
+    else:
+        key = ("o", id(obj))
+        _KEEP.append(obj)
+    if key not in _TOKENS:
+        _TOKENS[key] = len(_TOKENS) + 1
+    return _TOKENS[key]
+
+
+def _pair(a: int, b: int) -> int:
+    return _token(("pair", a, b))
+
+
+def _entries_of(obj, depth: int) -> list:
+    """(key token, value token) of a container; dict-valued entries of identity-keyed caches are flattened one level."""
+    from collections.abc import Mapping
+
+    out = []
+    if isinstance(obj, Mapping):
+        for k, v in list(obj.items()):
+            kt = _token(k)
+            if depth > 0 and isinstance(v, Mapping):
+                for k2, v2 in list(v.items()):
+                    out.append((_pair(kt, _token(k2 if isinstance(k2, (str, int)) else repr(k2))), _token(v2)))
+            else:
+                out.append((kt, _token(v)))
+    elif isinstance(obj, (list, tuple)):
+        out.append((_token("len"), _token(len(obj))))
+        for i, v in enumerate(obj):
+            out.append((_token(i), _token(v)))
+    elif isinstance(obj, (set, frozenset)):
+        out.append((_token("len"), _token(len(obj))))
+        for v in obj:
+            out.append((_token(v if isinstance(v, (str, int)) else repr(v)), _token(True)))
+    else:
+        out.append((_token("self"), _token(obj)))
+    return out
+
+
+def snapshot(carriers) -> list:
+    import importlib
+
+    out = []
+    for c in carriers or []:
+        try:
+            mod = importlib.import_module(c["module"])
+            obj = getattr(mod, c["name"])
+            if c.get("call"):
+                if obj.cache_info().currsize == 0:
+                    continue  # not computed yet: nothing to compare
+                obj = obj()
+        except Exception:  # noqa: BLE001
+            continue
+        for kt, vt in _entries_of(obj, 1 if type(obj).__name__.startswith("Weak") else 0):
+            out.append([c["id"], kt, vt])
+    return out
+
+
+def named_strategy(name: str):
+    from hypothesis import strategies as st
+
+    return {
+        "digits": st.text(alphabet="0123456789", min_size=4, max_size=8),
+        "words": st.sampled_from(["alpha", "beta", "gamma"]),
+        "upper": st.text(alphabet="ABCDEF", min_size=1, max_size=5),
+    }[name]
+
+
 def canonical(reqs) -> list:
     out = []
     for r in reqs:
@@ -152,6 +234,8 @@ def responder_for(name, slow_prefix=None, slow_s=0.0):
         if slow_prefix and item["target"].startswith(slow_prefix):
             time.sleep(slow_s)  # a slow operation: with several workers the other threads take the later operations
         path = item["target"].split("?")[0]
+        if path.startswith("/graphql"):
+            return 200, [("Content-Type", "application/json")], b'{"data": {}}'
         if item["method"] == "POST" and path.rstrip("/").count("/") == 1:
             return 201, [("Content-Type", "application/json")], b'{"id": 1}'
         return 200, [("Content-Type", "application/json")], b"{}"
@@ -202,17 +286,45 @@ def run_spec(spec: dict) -> dict:
         _CURRENT["phase"] = None
     rec = Recorder(responder_for(spec.get("responder", "ok"), spec.get("slow_prefix"), spec.get("slow_s", 0.0)))
     tmp = None
+    registered: list = []
     try:
-        sch = spec["schema"]
-        if "files" in sch and "entry" in sch:
-            core.SCRATCH.mkdir(exist_ok=True)
-            tmp = tempfile.mkdtemp(dir=core.SCRATCH, prefix="c13_")
+        sch = spec.get("schema")
+        generation = GenerationConfig(modes=[GenerationMode(m) for m in spec.get("modes", ["positive"])])
+        gen_spec = spec.get("generation")
+        if gen_spec is not None:
+            from schemathesis.generation import HeaderConfig
+
+            generation = GenerationConfig(
+                modes=[GenerationMode(m) for m in spec.get("modes", ["positive"])],
+                allow_x00=gen_spec.get("allow_x00", True),
+                codec=gen_spec.get("codec", "utf-8"),
+                graphql_allow_null=gen_spec.get("graphql_allow_null", True),
+                with_security_parameters=gen_spec.get("with_security_parameters", True),
+                headers=HeaderConfig(strategy=named_strategy(gen_spec["header_strategy"]) if gen_spec.get("header_strategy") else None),
+            )
+        if spec.get("graphql") is not None:
+            schema = schemathesis.graphql.from_file(spec["graphql"])
+            schema.configure(base_url=rec.url + "/graphql")
+        elif "files" in sch and "entry" in sch:
+            directory = spec.get("_dir")
+            if directory is None:
+                core.SCRATCH.mkdir(exist_ok=True)
+                directory = tmp = tempfile.mkdtemp(dir=core.SCRATCH, prefix="c13_")
             for name, content in sch["files"].items():
-                (Path(tmp) / name).write_text(json.dumps(content))
-            schema = schemathesis.openapi.from_path(str(Path(tmp) / sch["entry"]))
+                target = Path(directory) / name
+                if not target.exists():
+                    target.write_text(json.dumps(content))
+            schema = schemathesis.openapi.from_path(str(Path(directory) / sch["entry"]))
+            schema.configure(base_url=rec.url)
         else:
             schema = schemathesis.openapi.from_dict(sch)
-        schema.configure(base_url=rec.url)
+            schema.configure(base_url=rec.url)
+        if gen_spec is not None:
+            schema.configure(generation=generation)
+        for fmt, strategy_name in (spec.get("formats") or {}).items():
+            schemathesis.openapi.format(fmt, named_strategy(strategy_name))
+            registered.append(fmt)
+        snap_before = snapshot(spec.get("carriers"))
         kw = {}
         if spec.get("step_count") is not None:
             kw["stateful_step_count"] = spec["step_count"]
@@ -224,11 +336,10 @@ def run_spec(spec: dict) -> dict:
             suppress_health_check=list(hypothesis.HealthCheck),
             **kw,
         )
-        modes = [GenerationMode(m) for m in spec.get("modes", ["positive"])]
         exe = ExecutionConfig(
             phases=[PhaseName.from_str(p) for p in spec["phases"]],
             hypothesis_settings=settings,
-            generation=GenerationConfig(modes=modes),
+            generation=generation,
             seed=spec.get("seed"),
             workers_num=spec.get("workers", 1),
             max_failures=spec.get("max_failures"),
@@ -259,6 +370,7 @@ def run_spec(spec: dict) -> dict:
                 with rec.lock:
                     phase_of_request.append([ev.phase.name.name, len(rec.requests)])
         reqs = rec.take()
+        snap_after = snapshot(spec.get("carriers"))
         with _LOCK:
             entropy = [dict(e) for e in _CURRENT["entropy"]]
             seed_calls = list(_CURRENT["seed_calls"])
@@ -271,8 +383,17 @@ def run_spec(spec: dict) -> dict:
             "entropy": entropy,
             "seed_calls": seed_calls,
             "boundary_draws": boundary,
+            "snap_before": snap_before,
+            "snap_after": snap_after,
         }
     finally:
+        for fmt in registered:
+            try:
+                from schemathesis.specs.openapi import unregister_string_format
+
+                unregister_string_format(fmt)
+            except Exception:  # noqa: BLE001
+                pass
         rec.close()
         if tmp:
             shutil.rmtree(tmp, ignore_errors=True)
@@ -283,7 +404,25 @@ def main() -> int:
 
     core.assert_repo_import()
     spec = json.load(sys.stdin)
-    runs = [run_spec(spec) for _ in range(spec.get("repeat", 1))]
+    if "sequence" in spec:
+        # several runs, possibly with different configurations, one after the other in this process
+        dirs: dict = {}
+        try:
+            runs = []
+            for one in spec["sequence"]:
+                sch = one.get("schema")
+                if isinstance(sch, dict) and "files" in sch and "entry" in sch:
+                    key = json.dumps(sch, sort_keys=True)
+                    if key not in dirs:
+                        core.SCRATCH.mkdir(exist_ok=True)
+                        dirs[key] = tempfile.mkdtemp(dir=core.SCRATCH, prefix="c13_seq_")
+                    one = {**one, "_dir": dirs[key]}
+                runs.append(run_spec(one))
+        finally:
+            for d in dirs.values():
+                shutil.rmtree(d, ignore_errors=True)
+    else:
+        runs = [run_spec(spec) for _ in range(spec.get("repeat", 1))]
     json.dump({"runs": runs}, sys.stdout)
     return 0
 
